@@ -117,6 +117,27 @@ theorem meshPolygon_ok_circumradius_bound (poly : Polygon ℝ) (ma mar : ℝ) (f
     rw [← aspectRatio_eq tp.triangle hnd]
     bool_real_at hb
     exact hb
+/-- **no returned triangle is degenerate** (exact arithmetic): after a successful `mesh_polygon` every slot is a live triangle whose
+    corners are not collinear — `(b − a) × (c − a) ≠ 0` — because every live triangle went through `Triangle3D::new` -/
+theorem meshPolygon_triangles_nondegenerate (poly : Polygon ℝ) (ma mar : ℝ) (fuel : Nat) (t' : Mesh ℝ)
+    (h : meshPolygon poly ma mar fuel = .ok t') :
+    ∀ tri ∈ t'.getTrilist, ((tri.b - tri.a).cross (tri.c - tri.a)).lengthSquared ≠ 0 := by
+  intro tri htri
+  unfold Mesh.getTrilist at htri
+  simp only [List.mem_map, Array.mem_toList_iff] at htri
+  obtain ⟨tp, htp, rfl⟩ := htri
+  obtain ⟨j, hj, hget⟩ := Array.mem_iff_getElem.mp htp
+  obtain ⟨tp', htp', hv, _⟩ := meshPolygon_ok_bound_measured poly ma mar fuel t' h j hj
+  have e : tp' = tp := by
+    rw [Array.getElem?_eq_getElem hj, hget] at htp'
+    exact (Option.some.inj htp').symm
+  subst e
+  have hall := meshPolygon_allNewOk poly ma mar fuel t' h
+  have hmem : some (tp'.triangle.a, tp'.triangle.b, tp'.triangle.c) ∈ vgeom t' := by
+    have : (vgeom t')[j]? = some (some (tp'.triangle.a, tp'.triangle.b, tp'.triangle.c)) := by
+      rw [vgeom_getElem?, Array.getElem?_eq_getElem hj, hget]; simp [slotV, hv]
+    exact List.mem_of_getElem? this
+  exact newOk_nondegenerate _ _ _ (hall _ hmem)
 end
 end Real
 end G3d.C18M
